@@ -109,6 +109,8 @@ def mechanisms(kind, a, b):
         za, zb = ZONE[a], ZONE[b]
         if za != zb:
             ms += [("device-off", "fw"), ("fw-port-disabled", None)] + [("fwdeny-src:" + s, None) for s in shapes] + [("fwdeny-dst:" + s, None) for s in shapes]
+            # the deny rule is part of the scenario (declared in the firewall's configuration, the lists of the unused zone left empty)
+            ms += [("cfgdeny-src:src-exact", None), ("cfgdeny-dst:dst-exact", None)]
         if "deep0" in (a, b):
             ms += [("device-off", "rin")] + [("deny:" + s, "rin") for s in shapes]
     return ms
@@ -299,6 +301,8 @@ def apply_block(run, kind, mech, arg, rng_vals):
         fw = run.nodes["fw"]
         acl = {"external": fw.external_outbound_acl, "internal": fw.internal_inbound_acl, "dmz": fw.dmz_inbound_acl}[ZONE[run.b]]
         deny(acl, mech.split(":")[1])
+    elif mech.startswith("cfgdeny"):
+        pass            # declared in the scenario: nothing to do at run time
     elif mech.startswith("partial:"):
         _p, pr, port = mech.split(":")
         port = None if port == "any" else int(port)
@@ -321,6 +325,19 @@ def one(ck, kind, a, b, mech, arg, warm, seed):
     rng = random.Random(seed)
     cfg, ip = build(kind, a, b, rng)
     ctx = {"topology": kind, "attacker": a, "victim": b, "block": mech, "on": arg, "block_after_warm_up": warm, "seed": seed}
+    if mech.startswith("cfgdeny"):
+        fwc = next(n for n in cfg["simulation"]["network"]["nodes"] if n["hostname"] == "fw")
+        unused = ({"external", "internal", "dmz"} - {ZONE[a], ZONE[b]}).pop()
+        fwc["acl"]["%s_inbound_acl" % unused] = {}
+        fwc["acl"]["%s_outbound_acl" % unused] = {}
+        if mech.startswith("cfgdeny-src"):
+            lst = {"external": "external_inbound_acl", "internal": "internal_outbound_acl", "dmz": "dmz_outbound_acl"}[ZONE[a]]
+            fwc["acl"][lst][1] = {"action": "DENY", "src_ip": ip[a]}
+        else:
+            lst = {"external": "external_outbound_acl", "internal": "internal_inbound_acl", "dmz": "dmz_inbound_acl"}[ZONE[b]]
+            fwc["acl"][lst][1] = {"action": "DENY", "dst_ip": ip[b]}
+        warm = False
+        ctx["declared_in"] = lst
     runs = [Run(cfg, ip, a, b, seed) for _ in (0, 1)]
     warm_choices = [rng.randrange(100) for _ in range(6)]
     vals = [rng.randrange(100) for _ in range(3)]
@@ -393,5 +410,7 @@ def run(ck):
             if k not in seen:
                 seen.add(k)
                 take.append(c)
+    if ck.quick:
+        take += [c for c in combos if c[3].startswith("cfgdeny") and not c[5] and c not in take]
     for i, (kind, a, b, mech, arg, warm) in enumerate(take):
         one(ck, kind, a, b, mech, arg, warm, ck.seed * 1000 + i)
